@@ -59,4 +59,30 @@ def afterFirstSpace : List Char → List Char
 def credential (inHeader : Bool) (sent : String) : String :=
   if inHeader && sent.toList.contains ' ' then String.ofList (afterFirstSpace sent.toList) else sent
 
+/-! ### the credential fields of a decoded payload (request_decoder.go.tpl `range .HeaderSchemes`,
+http/codegen/service_data.go `hsch.AppendCred`, grpc/codegen `metSch.AppendCred`) -/
+
+/-- the credential fields of a decoded payload, by Go field name -/
+abbrev Fields := List (String × String)
+
+/-- one stripping block: `payload.F = SplitN(payload.F, " ", 2)[1]` when it contains a space -/
+def stripField (f : String) : Fields → Fields
+  | [] => []
+  | (g, v) :: rest => (g, if g == f then credential true v else v) :: stripField f rest
+
+/-- the decoder emits one stripping block per entry of the list it is given -/
+def decodeCreds (blocks : List String) (p : Fields) : Fields :=
+  blocks.foldl (fun p f => stripField f p) p
+
+/-- `SchemesData.AppendCred`: a scheme joins the list unless its credential field is already there -/
+def appendCred (l : List String) (f : String) : List String := if l.contains f then l else l ++ [f]
+
+/-- the list the decoder is given: the credential fields of the endpoint's header schemes, in
+    requirement order, added with `AppendCred` -/
+def headerSchemes (schemeFields : List String) : List String := schemeFields.foldl appendCred []
+
+/-- the server decoder, end to end, on the credential fields -/
+def decodeEndpoint (schemeFields : List String) (p : Fields) : Fields :=
+  decodeCreds (headerSchemes schemeFields) p
+
 end GoaVerif.Security
